@@ -23,9 +23,6 @@ RC = [
  ("np.linalg.norm(ord=inf): passes the 'ord > 1' support test and evaluates the p-norm formula with p=inf, giving NaN in both modes",
   [("C01", "norm", "rev", "wrong-value", "ord:inf"), ("C02", "norm", "fwd", "wrong-value", "ord:inf"),
    ("C04", "norm", "fwd-vs-rev", "not-adjoint", "ord:inf")]),
- ("np.linalg.norm with a tuple of negative axes: the reverse rule re-inserts the reduced axes at the wrong positions (wrong values or wrong shape)",
-  [("C01", "norm", "rev", "wrong-value", "axis_sign:tuple-neg"), ("C01", "norm", "rev", "wrong-shape", "axis_sign:tuple-neg"),
-   ("C05", "norm", "rev", "wrong-structure", "axis_sign:tuple-neg"), ("C04", "norm", "fwd-vs-rev", "not-adjoint", "axis_sign:tuple-neg")]),
  ("np.linalg.solve with batch dimensions that broadcast between a and b: gradients are not summed back to the operand's shape",
   [("C01", "solve", "rev", "wrong-shape", "batch_broadcast:True"), ("C05", "solve", "rev", "wrong-structure", "batch_broadcast:True"),
    ("C01", "solve", "rev", "wrong-value", "batch_broadcast:True,rhs_vector:True")]),
